@@ -39,7 +39,7 @@ fn gen(rng: &mut Rng, i: usize) -> Case {
         ("outer", "keyed", "fwd"),
     ];
     // bias towards the hash join (primary model), all combinations stay covered
-    let (variant, algo, ship) = if rng.chance(1, 3) {
+    let (variant, algo, ship) = if rng.chance(1, 6) {
         combos[rng.below(3) as usize]
     } else {
         *rng.pick(combos)
@@ -48,18 +48,30 @@ fn gen(rng: &mut Rng, i: usize) -> Case {
     let n_r = rng.range(1, 2) as usize;
     let mut c = Case::new(&["hjoin", variant, algo, ship, &n_l.to_string(), &n_r.to_string()]);
     let iters = match rng.below(6) {
-        0 => 2,
-        1 => 3,
+        0 | 1 | 2 => 2,
+        3 => 3,
         _ => 1,
     };
     let mut next_val = (i as i64 % 50) * 100;
-    for _ in 0..iters {
+    // keys used by each side in the previous iteration: later iterations are sometimes built to be
+    // sensitive to state left over from the previous one (same keys on the other side, one side
+    // empty or tiny) — "nothing is carried over into the next iteration"
+    let mut prev_keys_l: Vec<i64> = vec![];
+    let mut prev_keys_r: Vec<i64> = vec![];
+    for it in 0..iters {
+        let hunt = it > 0 && rng.chance(1, 2);
+        let hunt_keys: Vec<i64> = if hunt {
+            if rng.chance(1, 2) { prev_keys_l.clone() } else { prev_keys_r.clone() }
+        } else {
+            vec![]
+        };
         // key universe: small (many duplicates), medium, or disjoint sides
         let nkeys = *rng.pick(&[1i64, 2, 3, 5]);
         let disjoint = rng.chance(1, 10);
         let len_l = match rng.below(6) {
             0 => 0,
             1 => 1,
+            _ if hunt => rng.range(0, 1),
             _ => rng.range(0, 7),
         } as usize;
         let len_r = match rng.below(6) {
@@ -67,6 +79,8 @@ fn gen(rng: &mut Rng, i: usize) -> Case {
             1 => 1,
             _ => rng.range(0, 7),
         } as usize;
+        let mut cur_keys_l: Vec<i64> = vec![];
+        let mut cur_keys_r: Vec<i64> = vec![];
         let mut mk = |rng: &mut Rng, left: bool, prev: &mut Vec<String>| -> String {
             // occasionally an exact duplicate element (multiset semantics)
             if !prev.is_empty() && rng.chance(1, 12) {
@@ -78,6 +92,14 @@ fn gen(rng: &mut Rng, i: usize) -> Case {
             }
             if rng.chance(1, 15) {
                 k = -k - 1; // negative keys (sort-merge ordering)
+            }
+            if !hunt_keys.is_empty() && rng.chance(3, 4) {
+                k = *rng.pick(&hunt_keys);
+            }
+            if left {
+                cur_keys_l.push(k);
+            } else {
+                cur_keys_r.push(k);
             }
             next_val += 1;
             let s = if malformed && rng.chance(1, 3) {
@@ -94,6 +116,8 @@ fn gen(rng: &mut Rng, i: usize) -> Case {
         let mut right: Vec<String> = (0..len_r).map(|_| mk(rng, false, &mut prev_r)).collect();
         left.reverse();
         right.reverse();
+        prev_keys_l = cur_keys_l;
+        prev_keys_r = cur_keys_r;
         // per replica: has it sent FAR yet
         let mut far_l = vec![false; n_l];
         let mut far_r = vec![false; n_r];
